@@ -515,6 +515,7 @@ inductive CAct (α : Type) where
   | draw (i : Nat)                      -- `U_i(gen)`
   | write (pos : Nat) (x : α)           -- `c[pos] = x`
   | drawWrite (i : Nat) (x : α)         -- `U_i(gen) = x` (container not const)
+  | raw                                 -- `gen()`: the program calls the generator itself
   deriving Repr
 
 /-- observation: whether the factory returned a wrapper; the element returned by a draw and the index it has
@@ -522,6 +523,7 @@ in the container -/
 inductive CEv (α : Type) where
   | made (b : Bool)
   | elem (e : α) (idx : Nat)
+  | raw (n : Nat)
   deriving Repr, DecidableEq
 
 section cscript
@@ -554,6 +556,9 @@ def cstep (D : StdDist Int δ) (G : Gen γ) (a : CAct α) (c : List α) (s : Nat
       | .ok r => .ok ([.elem r.1.1 r.1.2], c.set r.1.2 x, upd s i (some r.2.1.distribution), r.2.2)
       | .error f => .error f
     | none => .error .emptyDeref
+  | .raw =>
+    let r := G.next g
+    .ok ([.raw r.1], c, s, r.2)
 
 def runCScript (D : StdDist Int δ) (G : Gen γ) :
     List (CAct α) → List α → (Nat → Option (Basic δ)) → γ → M (List (CEv α) × List α × (Nat → Option (Basic δ)) × γ)
